@@ -91,7 +91,18 @@ func runC21(c *core.Ctx) {
 		eng.Dominates(c, "C21.src-gate≺verify", fn, g, ir.CallSinks(verify, "handler.MakeDepositProposal"), "handler.MakeDepositProposal", nil)
 	}
 	outs := ir.CallsTo(fn, mt, btcMT, ripMT)
-	c.Floor("outbound MakeTransaction calls", len(outs), 3)
+	nOut := len(outs)
+	if len(outs) == 0 {
+		// the three target-chain makers may sit behind one private helper: the gates then dominate the helper's
+		// call site, and the helper reaches all three makers
+		outs = ir.CallsThrough(fn, func(ci ssa.CallInstruction) bool { return ir.CalleeIs(ci, mt, btcMT, ripMT) }, 1)
+		for _, site := range outs {
+			if h := site.Common().StaticCallee(); h != nil {
+				nOut += len(ir.CallsTo(h, mt, btcMT, ripMT))
+			}
+		}
+	}
+	c.Floor("outbound MakeTransaction calls", nOut, 3)
 	for _, g := range append(append([]eng.NamedGuard{}, common...), dst...) {
 		eng.Dominates(c, "C21.gate≺outbound", fn, g, ir.CallSinks(outs, "MakeTransaction"), "outbound MakeTransaction (entrance/btc/ripple)", nil)
 	}
@@ -267,14 +278,27 @@ func runC22(c *core.Ctx) {
 		}
 		return ir.Strip(cl.Common().Args[0])
 	}
-	s1 := sinkOf(prs[0].Common().Args[3])
-	s2 := sinkOf(pms[0].Common().Args[1])
+	v1, v2 := prs[0].Common().Args[3], pms[0].Common().Args[1]
+	host := fn
+	if sameValue(v1, v2) && sinkOf(v1) == nil {
+		// one byte slice handed to both; it may be produced by an encoding helper (`request := encode(mv)`)
+		if via, release := valueVia(v1); via != v1 {
+			defer release()
+			if in, isI := via.(ssa.Instruction); isI && in.Parent() != nil {
+				host = in.Parent()
+				c.Attribute(host, fn)
+			}
+			v1, v2 = via, via
+		}
+	}
+	s1 := sinkOf(v1)
+	s2 := sinkOf(v2)
 	c.Decide(s1 != nil && s1 == s2, "C22.same-bytes", fn, "PutRequest and PutMerkleVal receive Bytes() of the same sink", c.P.Rel(pms[0].Pos()), "")
 	if s1 != nil {
 		// the sink is written only by ToMerkleValue.Serialization (once)
 		writes := 0
 		var serCall ssa.CallInstruction
-		for _, ci := range ir.Calls(fn, nil) {
+		for _, ci := range ir.Calls(host, nil) {
 			for i, a := range ci.Common().Args {
 				if ir.Strip(a) != s1 {
 					continue
